@@ -39,6 +39,8 @@ def site(fi, node=None):
 
 
 def check(m, run):
+    from .. import rules_state as _rs14
+    _rs14.iv4_deepcopy(m, run)     # shapes that are copies of each other (translated siblings in a container) are exported each with its own data (DC9)
     # the dictionary formats of curves, surfaces (with trims of every kind) and volumes are decided by round trips through the real classes
     # (JR2, JR3); the rules that pair the keys the exporters write with the keys the importers read corroborate for these three pairs
     from .. import skel_drivers as _sdj
